@@ -121,7 +121,19 @@ def rk_case(case):
             r.v("C02/dT-sign-size/%s" % case["method"], "returned step has the sign of the request and is not longer", dict(case, call=call),
                 observed=float(dT), expected=float(h))
         check_rk_state(r, m, M, f, L, tcur, ycur, h, dT, dY, dtype, dict(case, call=call), tol_newton=tn, label=" (call %d)" % call)
-        tcur = tcur + dT; ycur = ycur + dY
+        if call == 0:
+            tcur = tcur + dT; ycur = ycur + dY            # call 1 continues where call 0 ended (cached end slope is legitimately reused)
+        else:
+            # call 2: the SAME integrator object is asked for a step from an unrelated (t, y) with another h:
+            # the property holds for any time, state and step, not only for the continuation of the previous call
+            tcur = dtype(case["t"]) + dtype(0.75); ycur = (y * dtype(0.5) + dtype(0.25)).astype(dtype); h = dtype(-0.5) * dtype(case["h"])
+            try:
+                new_dt, (dT, dY) = m(rhs, tcur, ycur, {}, h)
+            except de.exception_types.FailedToMeetTolerances:
+                r.add("not_accepted")
+                break
+            tn = float(np.max(np.abs(m.atol + np.max(np.abs(m.rtol * ycur))))) * 0.5 if implicit else None
+            check_rk_state(r, m, M, f, L, tcur, ycur, h, dT, dY, dtype, dict(case, call=2), tol_newton=tn, label=" (call 2, unrelated start)")
     r.out(("rk", case["method"], case["dtype"], case["rhs"], len(shape), "implicit" if implicit else "explicit"))
     if case.get("sample"):
         r.samples.append(dict(case))
@@ -148,7 +160,7 @@ def split_case(case):
     m = M(shape, dtype=np.dtype(dtype), staggered_mask=mk)
     tcur, ycur = t, y.copy()
     e = eps_of(dtype)
-    for call in range(2):
+    for call in range(3):          # calls 0,1 contiguous; call 2 from an unrelated point with the same object
         new_dt, (dT, dY) = m(de.DiffRHS(f), tcur, ycur, {}, h)
         T = np.asarray(M.tableau_intermediate, dtype=LD)
         d = np.zeros(shape, dtype=LD); tc = LD(tcur); yl = np.asarray(ycur, dtype=LD); hl = LD(h)
@@ -165,7 +177,10 @@ def split_case(case):
         if dT != h or got.shape != d.shape or float(np.max(np.abs(got - d))) > bound:
             r.v("C02/split-composition/%s" % case["method"], "step is the drift/kick composition of the coefficient list", dict(case, call=call),
                 observed=dict(dT=float(dT), err=float(np.max(np.abs(got - d))) if got.shape == d.shape else "shape", bound=bound), expected="to rounding")
-        tcur = tcur + dT; ycur = ycur + dY
+        if call == 0:
+            tcur = tcur + dT; ycur = ycur + dY
+        else:
+            tcur = dtype(case["t"]) + dtype(0.75); ycur = (y * dtype(0.5) + dtype(0.25)).astype(dtype)
     r.out(("split", case["method"], case["dtype"], case["mask"], case["rhs"]))
     return r
 
